@@ -1,7 +1,7 @@
 CONSTANTS
   Subs <- S2
-  Writers <- W2
-  MaxEvents = 4
+  Writers <- W1
+  MaxEvents = 3
   MaxReconnect = 1
   Styles <- AllStyles
   AtomicAppend = TRUE
@@ -9,3 +9,4 @@ CONSTANTS
 SPECIFICATION FairSpec
 INVARIANT TypeOK
 INVARIANT Inv_C16_asis
+PROPERTY Live_Delivered
